@@ -1,7 +1,400 @@
 import Driver.Common
-namespace Driver.C05
-open Driver
+import Driver.C04
+import Log4rsModel.Rolling.Model
+import Log4rsModel.Rolling.Spec
+/-
+Driver for the rolling appender; the case format is shared by C05, C06 and C17.
 
-def handle : Handler := fun _ _ => badCase "unimplemented"
+  seq  <mode a|t> <preActive: - | size> <preArchives: `,`-joined idx:size> <trigger> <roller> <clock0> <ops>
+  conc <mode> <preActive> <preArchives> <trigger> <roller> <clock0> <amplifier> <threads `|`-joined record lists>
+
+  trigger = size:N | startup:M | time:<s|m>:<n>:<modulate 0|1> | spre:<answers> | spost:<answers>
+            (answers: a word over y n e, `-` = empty script; exhausted script answers n)
+  roller  = delete | fw:<base>:<count>:<pattern 0..4>
+  ops     = `,`-joined:  record | r (restart) | c<dt> (clock advances) | f<k>!record (step k of the rotation fails)
+  pre-existing content: active = genBytes 999000 size, archive idx = genBytes (998000+idx) size
+  patterns: 0 app.log.{}   1 arch/app.{}.log   2 app.log.{}.gz   3 arch/{}/app.log.zst   4 app.{}.{}.log
+
+observation
+  seq : `,`-joined, first the state after build, then one entry per op:  <res>!<consult>!<snapshot>
+        res = ok | err | PANIC | - ; consult = <shown>=<actual> | - ; snapshot = `;`-joined name=hex (sorted), `~` if empty
+  conc: <acks `|`-joined per thread>!<snapshot>
+-/
+namespace Driver.C05
+open Log4rs.Proto Log4rs.Rolling Driver
+open Log4rs.Roller (Disk Path RollerCfg deleteRoll fixedWindowRoll FsErr)
+open Driver.C04 (genBytes decRec RecSpec hex recBytes dedup)
+
+inductive TrigSpec where
+  | size (n : Nat)
+  | startup (m : Nat)
+  | time (c : TimeCfg)
+  | scripted (pre : Bool) (answers : List TrigAns)
+  deriving Repr
+
+inductive RollSpec where
+  | delete
+  | fw (base count pat : Nat)
+  deriving Repr
+
+def activePath : Path := "app.log".toList
+
+def patName (pat i : Nat) : Path :=
+  let d := toString i
+  (match pat with
+   | 0 => "app.log." ++ d
+   | 1 => "arch/app." ++ d ++ ".log"
+   | 2 => "app.log." ++ d ++ ".gz"
+   | 3 => "arch/" ++ d ++ "/app.log.zst"
+   | _ => "app." ++ d ++ "." ++ d ++ ".log").toList
+
+def rollerCfg (base count pat : Nat) : RollerCfg :=
+  { nameOf := patName pat, base, count,
+    comp := if pat = 2 then .gzip else if pat = 3 then .zstd else .none, codec := id }
+
+def rollFn : RollSpec → RollFn
+  | .delete => fun p f d => deleteRoll p f d
+  | .fw b c pat => fun p f d => fixedWindowRoll (rollerCfg b c pat) p f d
+
+/-- the harness can inject a fault only where `rotate_point` is called -/
+def RollSpec.hasHook : RollSpec → Bool
+  | .fw _ c _ => c > 0
+  | .delete => false
+
+def decAnswers (s : String) : Option (List TrigAns) :=
+  if s = "-" then some [] else
+  mapM? (fun c => if c = 'y' then some TrigAns.yes else if c = 'n' then some .no else if c = 'e' then some .err else none) s.toList
+
+def decTrig (s : String) : Option TrigSpec :=
+  match splitOnChar ':' s with
+  | ["size", n] => (decNat n).map .size
+  | ["startup", m] => (decNat m).map .startup
+  | ["time", u, n, m] =>
+    match (if u = "s" then some 1 else if u = "m" then some 60 else none), decNat n, decBool m with
+    | some unit, some n, some modulate => some (.time { unit, n, modulate })
+    | _, _, _ => none
+  | ["spre", a] => (decAnswers a).map (.scripted true)
+  | ["spost", a] => (decAnswers a).map (.scripted false)
+  | _ => none
+
+def decRoll (s : String) : Option RollSpec :=
+  match splitOnChar ':' s with
+  | ["delete"] => some .delete
+  | ["fw", b, c, p] =>
+    match decNat b, decNat c, decNat p with
+    | some b, some c, some p => if p ≤ 4 then some (.fw b c p) else none
+    | _, _, _ => none
+  | _ => none
+
+structure OpSpec where
+  op : Op
+  rec? : Option RecSpec
+  deriving Repr
+
+def decOp (hook : Bool) (s : String) : Option OpSpec :=
+  if s = "r" then some { op := .restart, rec? := none } else
+  match s.toList with
+  | 'c' :: ds => ((String.ofList ds).toNat?).map (fun dt => { op := .tick dt, rec? := none })
+  | 'f' :: rest =>
+    match splitOnChar '!' (String.ofList rest) with
+    | [k, r] =>
+      match decNat k, decRec r with
+      | some k, some r => some { op := .append r.chunks (if hook then some k else none), rec? := some r }
+      | _, _ => none
+    | _ => none
+  | _ => (decRec s).map (fun r => { op := .append r.chunks none, rec? := some r })
+
+structure Case where
+  appendMode : Bool
+  preActive : Option Nat
+  preArch : List (Nat × Nat)
+  trig : TrigSpec
+  roll : RollSpec
+  clock0 : Nat
+
+def decPreArch (s : String) : Option (List (Nat × Nat)) :=
+  mapM? (fun e => match splitOnChar ':' e with
+    | [i, n] => match decNat i, decNat n with
+      | some i, some n => some (i, n)
+      | _, _ => none
+    | _ => none) (decList ',' s)
+
+def decCase (mS preS archS trigS rollS clockS : String) : Option Case :=
+  match (if mS = "a" then some true else if mS = "t" then some false else none),
+        decOpt decNat preS, decPreArch archS, decTrig trigS, decRoll rollS, decNat clockS with
+  | some appendMode, some preActive, some preArch, some trig, some roll, some clock0 =>
+    some { appendMode, preActive, preArch, trig, roll, clock0 }
+  | _, _, _, _, _, _ => none
+
+def preActiveBytes (n : Nat) : Bytes := genBytes 999000 n
+def preArchBytes (idx n : Nat) : Bytes := genBytes (998000 + idx) n
+
+def Case.archName (c : Case) (i : Nat) : Path :=
+  match c.roll with
+  | .fw _ _ pat => patName pat i
+  | .delete => patName 0 i
+
+def Case.disk0 (c : Case) : Disk :=
+  let d := c.preArch.foldl (fun d (i, n) => d.set (c.archName i) (preArchBytes i n)) Disk.empty
+  match c.preActive with
+  | some n => d.set activePath (preActiveBytes n)
+  | none => d
+
+/-- (base, count) of the retention window; the delete roller keeps nothing -/
+def Case.window (c : Case) : Nat × Nat :=
+  match c.roll with
+  | .fw b n _ => (b, n)
+  | .delete => (0, 0)
+
+/-- run the model: the state after build, then after every op -/
+def Case.trace (c : Case) (ops : List Op) : List (Option Out × Disk) :=
+  let d0 := c.disk0
+  let go {σ : Type} (trig : Trigger σ) (t0 : σ) : List (Option Out × Disk) :=
+    let cfg : Cfg σ := { path := activePath, appendMode := c.appendMode, trig, roll := rollFn c.roll }
+    let s0 := init cfg d0 t0 c.clock0
+    (none, s0.disk) :: (Log4rs.Rolling.trace cfg s0 ops).map (fun (o, s) => (o, s.disk))
+  match c.trig with
+  | .size n => go (sizeTrigger n) ()
+  | .startup m => go (onStartupTrigger m) false
+  | .time tc => go (timeTrigger tc) 0
+  | .scripted pre ans => go (scriptedTrigger pre) ans
+
+def renderSnap (files : List (Path × Bytes)) : String :=
+  let named := files.map (fun (p, b) => (String.ofList p, b))
+  let sorted := (named.toArray.qsort (fun a b => a.1 < b.1)).toList
+  encList ";" (sorted.map (fun (n, b) => n ++ "=" ++ hex b))
+
+def renderRes : Option Out → String
+  | none => "-"
+  | some o => if o.res = .ok then "ok" else "err"
+
+def renderConsult : Option Out → String
+  | some { consult := some (a, b), .. } => toString a ++ "=" ++ toString b
+  | _ => "-"
+
+def renderEntry (e : Option Out × Disk) : String :=
+  renderRes e.1 ++ "!" ++ renderConsult e.1 ++ "!" ++ renderSnap e.2.files
+
+/-! ### parsing the implementation's observation -/
+
+structure ObsEntry where
+  res : String
+  consult : Option (Nat × Nat)
+  snap : Spec.Snap
+  snapS : String
+
+def decSnap (s : String) : Option Spec.Snap :=
+  mapM? (fun e => match splitOnChar '=' e with
+    | [n, h] => (C04.decBytesBig h).map (fun b => (n.toList, b))
+    | _ => none) (decList ';' s)
+
+def decEntry (s : String) : Option ObsEntry :=
+  match splitOnChar '!' s with
+  | [res, cons, snap] =>
+    let consult : Option (Option (Nat × Nat)) :=
+      if cons = "-" then some none else
+      match splitOnChar '=' cons with
+      | [a, b] => match decNat a, decNat b with
+        | some a, some b => some (some (a, b))
+        | _, _ => none
+      | _ => none
+    match consult, decSnap snap with
+    | some consult, some snap' => some { res, consult, snap := snap', snapS := snap }
+    | _, _ => none
+  | _ => none
+
+/-! ### C05 specification on the implementation's observation -/
+
+/-- pre-existing contents that belong to the stream: archives inside the window (oldest first),
+then the active file when the appender opens in append mode -/
+def Case.preItems (c : Case) : List Spec.Item :=
+  let (b, n) := c.window
+  let arch := (c.preArch.filter (fun (i, _) => b ≤ i ∧ i < b + n)).toArray.qsort (fun x y => x.1 > y.1) |>.toList
+  arch.map (fun (i, sz) => { bytes := preArchBytes i sz, must := true }) ++
+    (match c.preActive, c.appendMode with
+     | some sz, true => [{ bytes := preActiveBytes sz, must := true }]
+     | _, _ => [])
+
+def Case.files (c : Case) (snap : Spec.Snap) : List Bytes :=
+  let (b, n) := c.window
+  Spec.diskFiles c.archName b n activePath snap.get?
+
+/-- walk the history: after every op the retained files must be a whole-file suffix of the stream -/
+def specC05Go (c : Case) : Nat → List Spec.Item → List OpSpec → List ObsEntry → Option String
+  | _, _, [], [] => none
+  | k, stream, op :: ops, e :: es =>
+    let stream := match op.op, op.rec? with
+      | .append _ _, some r => stream ++ [{ bytes := recBytes r.chunks, must := e.res = "ok" }]
+      | .restart, _ => if c.appendMode then stream else stream.map (fun it => { it with must := false })
+      | _, _ => stream
+    if e.res = "PANIC" then some ("panic at op " ++ toString k)
+    else if Spec.suffixOfWhole stream (c.files e.snap) then specC05Go c (k + 1) stream ops es
+    else some ("after op " ++ toString k ++ " the retained files are not a whole-file suffix of the acknowledged stream")
+  | k, _, _, _ => some ("observation arity at op " ++ toString k)
+
+def trigKind : TrigSpec → String
+  | .size _ => "size" | .startup _ => "startup" | .time _ => "time"
+  | .scripted true _ => "user-pre" | .scripted false _ => "user-post"
+
+def rollKind : RollSpec → String
+  | .delete => "delete"
+  | .fw _ c p => "fw-c" ++ toString (min c 4) ++ (if p = 2 then "-gz" else if p = 3 then "-zst" else "")
+
+def Case.sig (c : Case) (pid : String) : String :=
+  pid ++ "/" ++ (if c.appendMode then "append" else "truncate") ++ "-" ++ trigKind c.trig ++ "-" ++
+    (match c.roll with | .delete => "delete" | .fw _ _ _ => "fixed-window")
+
+def modelTags (c : Case) (ops : List OpSpec) (tr : List (Option Out × Disk)) : List String :=
+  let outs := tr.filterMap (·.1)
+  let rolls := (outs.filter (fun o => o.rolled = some true)).length
+  let (_, cnt) := c.window
+  dedup ([if c.appendMode then "append" else "truncate", "trig-" ++ trigKind c.trig, "roller-" ++ rollKind c.roll] ++
+    (if c.preActive.isSome then ["pre-existing"] else []) ++
+    (if !c.preArch.isEmpty then ["pre-archives"] else []) ++
+    (if rolls > 0 then ["rolled"] else []) ++
+    (if rolls > cnt ∧ rolls > 0 then ["evict"] else []) ++
+    (if outs.any (fun o => o.rolled = some false) then ["roll-failed"] else []) ++
+    (if outs.any (fun o => o.res = .errTrigger) then ["trigger-err"] else []) ++
+    (if outs.any (fun o => o.res != .ok && !(match c.trig with | .scripted p _ => p | .size _ => false | _ => true)) then ["err-after-write"] else []) ++
+    (if ops.any (fun o => match o.op with | .restart => true | _ => false) then ["restart"] else []) ++
+    (if ops.any (fun o => match o.op with | .tick _ => true | _ => false) then ["tick"] else []) ++
+    (if ops.any (fun o => match o.rec? with | some r => (recBytes r.chunks).length > CAP | none => false) then ["record>cap"] else []) ++
+    (if ops.any (fun o => match o.rec? with | some r => r.text | none => false) then ["text"] else []))
+
+/-- decode a sequential case; `k` continues with the decoded parts -/
+def withSeq (cas obs : List String)
+    (k : Case → List OpSpec → List (Option Out × Disk) → List ObsEntry → Answer) : Answer :=
+  match cas, obs with
+  | ["seq", m, pre, arch, trig, roll, clock, opsS], [implObs] =>
+    match decCase m pre arch trig roll clock with
+    | none => badCase "case"
+    | some c =>
+      match mapM? (decOp c.roll.hasHook) (decList ',' opsS) with
+      | none => badCase "ops"
+      | some ops =>
+        let tr := c.trace (ops.map (·.op))
+        if implObs = "PANIC" then
+          { model := encList "," (tr.map renderEntry), spec := "FAIL:panic;sig=" ++ c.sig "C05" ++ "-panic", tags := ["panic"] }
+        else match mapM? decEntry (decList ',' implObs) with
+        | none => badCase "observation"
+        | some es => k c ops tr es
+  | _, _ => badCase "arity"
+
+/-! ### concurrent writers -/
+
+/-- per-thread cursor of the suffix matcher: `none` = no record of the thread seen yet -/
+def findRec (recs : List Bytes) (cur : Bytes) : Nat → Option Nat
+  | i => match recs[i]? with
+    | none => none
+    | some r => if r.isPrefixOf cur then some i else
+      if i + 1 < recs.length then findRec recs cur (i + 1) else none
+  termination_by i => recs.length - i
+
+/-- one step: which thread's record starts `cur`? threads already seen must continue with their
+next record, unseen threads may start anywhere (their older records were in discarded files) -/
+def concStep (threads : List (List Bytes)) (ptrs : List (Option Nat)) (cur : Bytes) : Option (Nat × Nat) :=
+  (List.range threads.length).findSome? fun t =>
+    match threads[t]?, ptrs[t]? with
+    | some recs, some (some i) =>
+      match recs[i]? with
+      | some r => if r.isPrefixOf cur then some (t, i) else none
+      | none => none
+    | some recs, some none => (findRec recs cur 0).map (fun i => (t, i))
+    | _, _ => none
+
+def concFile (threads : List (List Bytes)) : Nat → List (Option Nat) → Bytes → Option (List (Option Nat))
+  | 0, _, _ => none
+  | fuel + 1, ptrs, cur =>
+    if cur.isEmpty then some ptrs else
+    match concStep threads ptrs cur with
+    | none => none
+    | some (t, i) =>
+      match threads[t]? >>= (·[i]?) with
+      | none => none
+      | some r => concFile threads fuel (ptrs.set t (some (i + 1))) (cur.drop r.length)
+
+/-- Concurrent writers: every retained file is a concatenation of whole records; per thread the
+records present are in that thread's order, without repetition, and are a suffix of what the
+thread had acknowledged (older ones may have left with whole discarded files). Thread 0 is the
+pre-existing content. Empty records are dropped beforehand. -/
+def mergeSuffixOfWhole (threads : List (List Bytes)) (files : List Bytes) : Bool :=
+  let ths := threads.map (fun t => t.filter (fun r => !r.isEmpty))
+  let total := (ths.map List.length).sum
+  let final := files.foldl (fun (st : Option (List (Option Nat))) f => st.bind (fun p => concFile ths (total + 1) p f))
+    (some (ths.map (fun _ => none)))
+  match final with
+  | none => false
+  | some ptrs => (ths.zip ptrs).all (fun (t, p) => match p with | none => true | some i => i == t.length)
+
+structure ConcCase where
+  c : Case
+  amp : Nat
+  threads : List (List RecSpec)
+  acks : List (List Nat)
+  snapS : String
+  acksS : String
+  snap : Spec.Snap
+
+def withConc (cas obs : List String) (k : ConcCase → Answer) : Answer :=
+  match cas, obs with
+  | ["conc", m, pre, arch, trig, roll, clock, ampS, thS], [implObs] =>
+    let thr := (decList '|' thS).map (fun t => mapM? decRec (decList ',' t))
+    match decCase m pre arch trig roll clock, decNat ampS, mapM? id thr, splitOnChar '!' implObs with
+    | some c, some amp, some threads, [acksS, snapS] =>
+      match mapM? (fun t => mapM? decNat (decList ',' t)) (decList '|' acksS), decSnap snapS with
+      | some acks, some snap =>
+        if acks.length ≠ threads.length then badCase "acks arity"
+        else k { c, amp, threads, acks, snapS, acksS, snap }
+      | _, _ => badCase "conc observation"
+    | _, _, _, _ => badCase "conc case"
+  | _, _ => badCase "arity"
+
+/-- acknowledged records of every thread, in the thread's order -/
+def ConcCase.acked (cc : ConcCase) : List (List Bytes) :=
+  (cc.threads.zip cc.acks).map fun (t, ids) => (t.filter (fun r => ids.contains r.id)).map (fun r => recBytes r.chunks)
+
+def ConcCase.wellAcked (cc : ConcCase) : Bool :=
+  (cc.threads.zip cc.acks).all fun (t, ids) => (t.map (·.id)).take ids.length == ids
+
+/-- the serial schedule thread 0, thread 1, … through the model (shown when the observation is not admitted) -/
+def ConcCase.serial (cc : ConcCase) : String :=
+  let ops := cc.threads.flatMap (fun t => t.map (fun r => Op.append r.chunks none))
+  let tr := cc.c.trace ops
+  let allAcks := encList "|" (cc.threads.map (fun t => encList "," (t.map (fun r => toString r.id))))
+  allAcks ++ "!" ++ (match tr.getLast? with | some e => renderSnap e.2.files | none => "~")
+
+def ConcCase.tags (cc : ConcCase) : List String :=
+  ["conc", "threads-" ++ toString cc.threads.length, "amp-" ++ toString cc.amp,
+   if cc.c.appendMode then "append" else "truncate", "trig-" ++ trigKind cc.c.trig, "roller-" ++ rollKind cc.c.roll]
+
+def handleSeq (cas obs : List String) : Answer :=
+  withSeq cas obs fun c ops tr es =>
+    let model := encList "," (tr.map renderEntry)
+    -- entry 0 is the state after build; ops start at entry 1
+    let spec := match es with
+      | [] => "FAIL:empty observation;sig=" ++ c.sig "C05"
+      | e0 :: rest =>
+        if !Spec.suffixOfWhole c.preItems (c.files e0.snap) then
+          "FAIL:after build the retained files are not the pre-existing contents;sig=" ++ c.sig "C05" ++ "-open"
+        else match specC05Go c 0 c.preItems ops rest with
+          | none => "ok"
+          | some why => "FAIL:" ++ why ++ ";sig=" ++ c.sig "C05"
+    let tags := modelTags c ops tr
+    { model, spec, tags := if ops.isEmpty then "trivial" :: tags else "seq" :: tags }
+
+def handleConc (cas obs : List String) : Answer :=
+  withConc cas obs fun cc =>
+    let pre := cc.c.preItems.map (·.bytes)
+    let ok := cc.wellAcked && mergeSuffixOfWhole (pre :: cc.acked) (cc.c.files cc.snap)
+    { model := if ok then cc.acksS ++ "!" ++ cc.snapS else cc.serial,
+      spec := if ok then "ok" else
+        "FAIL:retained files are not whole acknowledged records in per-thread order (suffix by whole files);sig=" ++ cc.c.sig "C05" ++ "-conc",
+      tags := cc.tags }
+
+def handle : Handler := fun cas obs =>
+  match cas with
+  | "seq" :: _ => handleSeq cas obs
+  | "conc" :: _ => handleConc cas obs
+  | _ => badCase "kind"
 
 end Driver.C05
